@@ -374,6 +374,64 @@ func c18Run(o c18Opts) vs.Verdict {
 	return f.verdict(fmt.Sprintf("burst=%v %s", plan, strings.Join(counts, " ")))
 }
 
+// c18Resubscribe: a 2026-07-28 session unsubscribes from a resource and subscribes to it again at
+// once (each subscription is its own subscriptions/listen; ending one is asynchronous).  When
+// everything has settled the session counts as subscribed: an update of the resource must reach it.
+func c18Resubscribe() vs.Verdict {
+	f := &e1Fail{prefix: "c18 resubscribe"}
+	ctx := context.Background()
+	vs.Quiet(true)
+	s := NewServer(&Implementation{Name: "srv", Version: "1"}, &ServerOptions{Logger: quietLogger,
+		SubscribeHandler:   func(context.Context, *SubscribeRequest) error { return nil },
+		UnsubscribeHandler: func(context.Context, *UnsubscribeRequest) error { return nil },
+	})
+	const uri = "file:///r1"
+	s.AddResource(&Resource{URI: uri, Name: "r1"}, func(context.Context, *ReadResourceRequest) (*ReadResourceResult, error) {
+		return &ReadResourceResult{Contents: []*ResourceContents{{URI: uri, Text: "x"}}}, nil
+	})
+	updates := 0
+	cl := NewClient(&Implementation{Name: "cli", Version: "1"}, &ClientOptions{Logger: quietLogger,
+		ResourceUpdatedHandler: func(context.Context, *ResourceUpdatedNotificationRequest) {
+			updates++
+			vs.Event("update handled")
+		}})
+	ct, st := NewInMemoryTransports()
+	if _, err := s.Connect(ctx, st, nil); err != nil {
+		return vs.Verdict{Bad: err.Error(), Sig: "c18 setup"}
+	}
+	cs, err := cl.Connect(ctx, ct, &ClientSessionOptions{ProtocolVersion: "2026-07-28"})
+	if err != nil {
+		return vs.Verdict{Bad: err.Error(), Sig: "c18 setup"}
+	}
+	if err := cs.Subscribe(ctx, &SubscribeParams{URI: uri}); err != nil {
+		return vs.Verdict{Bad: "subscribe: " + err.Error(), Sig: "c18 setup"}
+	}
+	vs.WaitIdle()
+	vs.Quiet(false)
+	if err := cs.Unsubscribe(ctx, &UnsubscribeParams{URI: uri}); err != nil {
+		f.failf("unsubscribe-failed", "%v", err)
+	}
+	if err := cs.Subscribe(ctx, &SubscribeParams{URI: uri}); err != nil {
+		f.failf("subscribe-failed", "%v", err)
+	}
+	vs.WaitIdle()
+	vs.Quiet(true)
+	time.Sleep(time.Second)
+	vs.WaitIdle()
+	if err := s.ResourceUpdated(ctx, &ResourceUpdatedNotificationParams{URI: uri}); err != nil {
+		f.failf("update-failed", "%v", err)
+	}
+	time.Sleep(time.Second)
+	vs.WaitIdle()
+	if updates != 1 {
+		f.failf("update-lost-after-resubscribe", "the session unsubscribed from %s and subscribed again; after everything settled an update of the resource produced %d resources/updated notifications for it, want 1", uri, updates)
+	}
+	cs.Close()
+	vs.WaitIdle()
+	vs.Quiet(false)
+	return f.verdict(fmt.Sprintf("updates=%d", updates))
+}
+
 var c18MaxBurst = 3
 
 func TestVerifC18(t *testing.T) {
@@ -387,6 +445,7 @@ func TestVerifC18(t *testing.T) {
 		vs.E1(t, "burst/small/legacy-only", env.Pick(3, 4), vs.Options{}, func() vs.Verdict { return c18Run(c18Opts{small: true}) }),
 		vs.E1(t, "burst/slow-peer-during-fan-out", env.Pick(1, 2), vs.Options{NoFreeRun: "the stalled write holds the connection's write mutex while the harness waits for virtual time"}, func() vs.Verdict { return c18Run(c18Opts{slowPeer: true}) }),
 		vs.E1(t, "burst/faulty-peer-during-fan-out", env.Pick(1, 2), vs.Options{}, func() vs.Verdict { return c18Run(c18Opts{faultyPeer: true}) }),
+		vs.E1(t, "resubscribe/2026-07-28", env.Pick(2, 3), vs.Options{}, func() vs.Verdict { return c18Resubscribe() }),
 		vs.E1(t, "burst/capability-disabled", env.Pick(0, 1), vs.Options{}, func() vs.Verdict { return c18Run(c18Opts{capabilityOff: true}) }),
 	}
 	env.Run(scs)
